@@ -267,6 +267,12 @@ static void nasm_register_size_optimize(struct instr *instrc) {
 static void encode_imm_data_transfer(struct instr *instrc) {
   // calculate value for +rd and +rw
   instrc->rd_offset = instrc->opd[0].reg & VALUE_MASK;
+  // a negative immediate for a 32-bit register is just its low 32 bits
+  unsigned int dest_mode = instrc->opd[0].reg & MODE_MASK;
+  if (!instrc->mem_disp && (dest_mode == reg32 || dest_mode == ext32) &&
+      IN_RANGE(instrc->cons, NEG32BIT + 1, NEG64BIT)) {
+    DO_NOT_PAD(instrc->cons, instrc->reduced_imm, MAX_UNSIGNED_32BIT);
+  }
   // only condition for mov with M operand encoding implementation
   // check if immediate operand is a negative 32 bit value
   if (IN_RANGE(instrc->cons, NEG32BIT + 1, NEG64BIT) &&
